@@ -138,7 +138,7 @@ class PersistentRemoteWorker(PersistentWorker, RemoteWorker):
     # Child process, run the main loop
     def do_work(self): 
         while not self._stop:
-            args = copy.deepcopy(self._args)
+            args = list(copy.deepcopy(self._args)) # default args can be a tuple, we need something we can assign to
             kwargs = copy.deepcopy(self._kwargs)
             if is_windows():
                 # On Windows we have to provide an extra way of signalling
